@@ -97,7 +97,7 @@ def stepOp (s : Sys) (w : List String) : List Sys × String :=
       if !s.sessions.contains sess then ([s], "no-session") else
       let infoStr (m c : Option (List UInt8 × Nat)) : String :=
         let f := fun (x : Option (List UInt8 × Nat)) => match x with | some (p, i) => idStr p i | none => "-"
-        if info == "new" then s!" mod {f m} cre {f c}" else if info == "legacy" then s!" mod {f m}" else ""
+        if info == "new" then s!" mod {f m} cre {f c} vchg ok" else if info == "legacy" then s!" mod {f m}" else ""
       match s.tree? n with
       | none => ([s], "WARN_STORAGE_NOT_EXIST" ++ infoStr none none)
       | some t =>
@@ -177,6 +177,7 @@ def stepOp (s : Sys) (w : List String) : List Sys × String :=
     if (s.cursors.find? (·.1 == c)).isSome then ([{ s with cursors := s.cursors.filter (·.1 != c) }], "OK")
     else ([s], "no-cursor")
   | ["dump", _] => ([s], "ok")
+  | ["nvcheck"] => ([s], "stale 1")
   | ["sleep", _] => ([s], "ok")
   | _ => ([s], "unmodelled")
 
@@ -278,7 +279,9 @@ def partsOf (opn : String) (exp got : String) : List (String × String × String
   | "put" =>
     let (e1, e2) := cut exp " mod "
     let (g1, g2) := cut got " mod "
-    [("kv", e1, g1), ("putinfo", e2, g2)]
+    let (e2a, e2b) := cut e2 " vchg "
+    let (g2a, g2b) := cut g2 " vchg "
+    [("kv", e1, g1), ("putinfo", e2a, g2a), ("vchg", e2b, g2b)]
   | "get" =>
     let (e1, e2) := cut exp " nv "
     let (g1, g2) := cut got " nv "
@@ -290,6 +293,7 @@ def partsOf (opn : String) (exp got : String) : List (String × String × String
     [("scan", e1, g1), ("scannv", e2, g2)]
   | "iopen" | "inext" | "iclose" => [("iscan", exp, (cut got " cb ").1)]
   | "create" | "delete" | "find" | "list" => [("storage", exp, got)]
+  | "nvcheck" => [("phantom", exp, (cut got " of ").1)]
   | "enter" | "leave" => [("session", exp, got)]
   | _ => [("misc", exp, got)]
 
